@@ -2,10 +2,10 @@ package vc
 
 import (
 	"fmt"
-	"sort"
 	"go/ast"
 	"go/token"
 	"go/types"
+	"sort"
 	"strings"
 )
 
@@ -389,9 +389,9 @@ func (x *Exec) execAssign(s *ast.AssignStmt, st *State, env *Env) {
 	}
 	// then the targets
 	type tgt struct {
-		lv  *LVal
+		lv   *LVal
 		skip bool
-		t   types.Type
+		t    types.Type
 	}
 	var tg []tgt
 	for _, l := range s.Lhs {
